@@ -23,7 +23,7 @@ Up    == {w \in Wallets : S.up[w]}
 Down  == {w \in Wallets : ~S.up[w]}
 PrivOf(w) == IF S.priv[w] = NoPass THEN RS({p \in Pass : WF(p) /\ p # S.pub[w]}) ELSE S.priv[w]
 Noise == IF Focus = "file" THEN 8 ELSE 4
-PickPriv(w) == IF Coin(Noise) THEN RS(Pass) ELSE PrivOf(w)
+PickPriv(w) == IF Coin(Noise) THEN (IF Coin(2) THEN "bad" ELSE RS(Pass)) ELSE PrivOf(w)
 PickPub(w)  == IF Coin(Noise + 1) THEN RS(Pass) ELSE S.pub[w]
 FreshPass(w) == RS({p \in Pass : WF(p) /\ p # S.pub[w] /\ p # S.priv[w]})
 PickSeed(w) == IF HasKs(S, w) /\ ~Coin(5) THEN RS(Present(S, w)) ELSE RS(Seeds)
@@ -40,7 +40,7 @@ Live(w) == HasKs(S, w) \/ Coin(40)
 Do(op) == /\ Sensible(S, op)
           /\ \E fault \in Faults(op) :
                 /\ S' = Apply(S, op, fault)
-                /\ hist' = Append(hist, op @@ [fault |-> fault, k |-> RS(1..24)])
+                /\ hist' = Append(hist, op @@ [fault |-> fault, k |-> RS(1..24), c |-> IF Coin(3) THEN 2 ELSE 1])
 
 GInit == Init /\ hist = <<>>
 
@@ -65,7 +65,7 @@ GNext ==
         LET f == RS(UsedFiles) IN
         Do([t |-> "Import", w |-> w, f |-> f,
             old |-> IF Coin(8) THEN RS(Pass) ELSE S.files[f].sealed,
-            new |-> IF Coin(4) THEN "" ELSE IF Coin(8) THEN RS(Pass) ELSE IF HasKs(S, w) THEN S.priv[w] ELSE FreshPass(w)])
+            new |-> IF Coin(3) THEN "" ELSE IF Coin(8) THEN RS(Pass) ELSE IF HasKs(S, w) THEN S.priv[w] ELSE FreshPass(w)])
   \/ \E w \in Up : Do([t |-> "Lock", w |-> w])
   \/ \E w \in Up : \E i \in W(3) : Do([t |-> "Unlock", w |-> w, p |-> PickPriv(w)])
   \/ \E w \in Up : Live(w) /\ Do([t |-> "Sign", w |-> w, s |-> PickSeed(w), b |-> RS({0, 1}), i |-> RS(0..2)])
